@@ -1,15 +1,63 @@
 import GeomV.C15.Gen
+import GeomV.C15.Lemmas
 /-!
 # C15 — tie lemmas: definitions regenerated from /repo/similar.go (Gen.lean, rewritten by the
-`pregen` hook on every run) are the model's definitions. A change of the comparison in the Go
-source changes Gen.lean and these `rfl`s stop checking.
+`pregen` hook on every run) are the model's definitions. A change of these functions in the Go
+source changes Gen.lean and the proofs below stop checking (reported as a broken tie).
+
+`similar`, `pointSimilar`, `ringSimilarFrom`, `Point.Similar`, `Bounds.Similar`: definitional.
+`pointsSimilar`: the index loop of the source is the structural recursion of the model.
+`ringSimilar`: `n := len(a) - 1; if n < 1` is `len ≤ 1` (also for `len = 0`, where Go's `n` is −1
+and Lean's truncated subtraction gives 0: same branch).
 -/
+set_option linter.unusedSimpArgs false
 namespace GeomV.C15
 
 /-- `func similar` as it is in the source now = the model's `similar` -/
 theorem C15_tie_similar : Gen.similar = similar := rfl
-
-/-- `func pointSimilar` as it is in the source now = the model's `pointSimilar` -/
 theorem C15_tie_pointSimilar : Gen.pointSimilar = pointSimilar := rfl
+theorem C15_tie_ringSimilarFrom : Gen.ringSimilarFrom = ringSimilarFrom := rfl
 
+theorem C15_tie_pointsSimilar : Gen.pointsSimilar = pointsSimilar := by
+  funext ps qs e
+  rw [Bool.eq_iff_iff, pointsSimilar_iff]
+  unfold Gen.pointsSimilar
+  by_cases hl : ps.length = qs.length
+  · simp only [hl, ne_eq, not_true_eq_false, decide_false, Bool.false_eq_true, if_false, true_and,
+      List.all_eq_true, List.mem_range]
+    constructor
+    · intro h i p q hp hq
+      have hi : i < qs.length := (List.getElem?_eq_some_iff.1 hq).1
+      have := h i hi
+      rw [hp, hq] at this
+      exact this
+    · intro h i hi
+      have h1 : ps[i]? = some ps[i] := by simp [hl, hi]
+      have h2 : qs[i]? = some qs[i] := by simp [hi]
+      rw [h1, h2]
+      exact h i _ _ h1 h2
+  · simp [hl]
+
+theorem C15_tie_ringSimilar : Gen.ringSimilar = ringSimilar := by
+  funext a b e
+  unfold Gen.ringSimilar ringSimilar
+  rw [C15_tie_pointsSimilar, C15_tie_ringSimilarFrom]
+  by_cases hl : a.length = b.length
+  · by_cases h1 : a.length ≤ 1
+    · have h1' : b.length ≤ 1 := by omega
+      have t : b.length - 1 = 0 := by omega
+      simp [hl, h1', t]
+    · have h1' : ¬ b.length ≤ 1 := by omega
+      have t : ¬ (b.length - 1 = 0) := by omega
+      simp [hl, h1', t]
+  · simp [hl]
+
+theorem C15_tie_Point (p : P) (g : RGeom) (e : Rat) : Gen.simPoint p g e = sim (.point p) e g := by
+  cases g <;> rfl
+theorem C15_tie_MultiPoint (ps : List P) (g : RGeom) (e : Rat) : Gen.simMultiPoint ps g e = sim (.multiPoint ps) e g := by
+  cases g <;> simp [Gen.simMultiPoint, sim, C15_tie_pointsSimilar]
+theorem C15_tie_LineString (ps : List P) (g : RGeom) (e : Rat) : Gen.simLineString ps g e = sim (.lineString ps) e g := by
+  cases g <;> simp [Gen.simLineString, sim, C15_tie_pointsSimilar]
+theorem C15_tie_Bounds (a b : P) (g : RGeom) (e : Rat) : Gen.simBounds a b g e = sim (.bounds a b) e g := by
+  cases g <;> rfl
 end GeomV.C15
